@@ -81,6 +81,9 @@ def build(spec: dict) -> dict:
     for c in stack:
         body, b = encode_one(body, c, spec.get("split_at"))
         inner = b  # boundaries of the outermost coding only
+    full_coded_len = len(body)
+    if spec.get("coded_keep") is not None:
+        body = body[: int(spec["coded_keep"])]  # the server framed a truncated coded stream correctly
     names = [HEADER_NAME[c] for c in stack if c != "identity"]
     head = [b"HTTP/1.1 200 OK", b"Server: sim"]
     if names:
@@ -140,4 +143,7 @@ def build(spec: dict) -> dict:
         "inner": [hb + pos_map(b) for b in inner],
         "coded": bool(names),
         "stack": stack,
+        "full_coded_len": full_coded_len,
+        "last_chunk_line": (hb + bounds[-1]) if framing == "chunked" else None,
+        "size_lines": [(hb + bounds[i], hb + bounds[i + 1]) for i in range(0, len(bounds) - 1, 2)] if framing == "chunked" else [],
     }
